@@ -35,6 +35,8 @@ def _get_check(spec):
         mod, cls, params = spec
         m = importlib.import_module(mod)
         c = getattr(m, cls)(_W['world'], params)
+        if hasattr(c, 'bind'):
+            c.bind(_W['paths'])
         _W['checks'][key] = c
     return c
 
@@ -43,6 +45,10 @@ def _task(args):
     spec, prefix, budget, deadline = args
     world = _W['world']
     ex = world.ex
+    try:
+        ex = getattr(_get_check(spec), 'ex', None) or ex     # checks over another crate bring their own engine
+    except Exception:
+        pass
     t0 = time.time()
     q0, st0 = ex.queries, ex.solver_time
     records = []
